@@ -26,22 +26,24 @@ from .tlc import Scratch, run_tlc, write_cfg
 PID = "C11"
 
 # indices into Rebase!PythagoreanPoints (= geom.BASE_POINTS + geom.PLANE_POINTS), 1-based
+# Scales: indices into Rebase!ScaleTable  1: 2   2: -2   3: 1/2   4: -1/2   5: 3   6: -1   7: -3
 TIERS = {
     "quick": dict(
-        vector=[dict(MaxDepth=4, PointIdx={1, 5}, Octants={1, 4, 6}, PartnerIdx=2, Scales={2}),
-                dict(MaxDepth=3, PointIdx={13}, Octants={2, 3}, PartnerIdx=14, Scales={3})],
+        vector=[dict(MaxDepth=4, PointIdx={1, 5}, Octants={1, 4, 6}, PartnerIdx=2, Scales={2, 4}),
+                dict(MaxDepth=3, PointIdx={13}, Octants={2, 3}, PartnerIdx=14, Scales={5, 6})],
         field=[dict(MaxDepth=4, PointIdx={1, 5}, Octants={1, 4, 6}, PartnerIdx=2, Scales=set())],
         symbolic=True),
     "thorough": dict(
-        vector=[dict(MaxDepth=6, PointIdx={1, 5}, Octants={1, 4, 6, 7}, PartnerIdx=4, Scales={2}),
-                dict(MaxDepth=4, PointIdx={1, 2, 3, 4, 5, 6, 7, 8, 9, 10, 11, 12}, Octants={2, 3, 5, 8}, PartnerIdx=1, Scales={2, 3}),
+        vector=[dict(MaxDepth=6, PointIdx={1}, Octants={1, 6}, PartnerIdx=4, Scales={2}),
+                dict(MaxDepth=5, PointIdx={1, 5}, Octants={1, 4, 6, 7}, PartnerIdx=4, Scales={1, 2, 4}),
+                dict(MaxDepth=4, PointIdx={1, 2, 3, 4, 5, 6, 7, 8, 9, 10, 11, 12}, Octants={2, 3, 5, 8}, PartnerIdx=1, Scales={3, 7}),
                 dict(MaxDepth=4, PointIdx={13, 14}, Octants={1, 2, 3, 4}, PartnerIdx=13, Scales={2})],
         field=[dict(MaxDepth=5, PointIdx={1, 5}, Octants={1, 4, 6, 7}, PartnerIdx=2, Scales=set()),
                dict(MaxDepth=3, PointIdx={2, 3, 6, 8, 12, 13}, Octants={2, 3, 5, 8}, PartnerIdx=2, Scales=set())],
         symbolic=True),
 }
 MAX_DEGREE = 2
-INVARIANTS = ["TypeOK", "FieldAppliesToOwnPoints", "AwayFromAxis", "Small32"]
+INVARIANTS = ["TypeOK", "FieldAppliesToOwnPoints", "MagnitudeIsNorm", "AwayFromAxis", "Small32"]
 PROPERTIES = ["RebasePreservesObject", "RefusalIsInert", "NoDirectCylSph", "ScaleIsLinear"]
 
 _SYS = None
@@ -149,7 +151,8 @@ class _Ctx:
 
 def _cmp(ctx, where, clause, expr, want, label):
     """Compare a real value with the model's; returns the real value as [n, d] when it is known exactly."""
-    verdict, value = exact_value(expr, Fraction(want))
+    want = Fraction(*want) if isinstance(want, (list, tuple)) else Fraction(want)
+    verdict, value = exact_value(expr, want)
     if verdict == "different":
         ctx.problems.append((where, clause, f"{label}: real value {expr}, model {want}"))
     elif verdict == "numeric-equal":
@@ -161,7 +164,8 @@ def _cmp(ctx, where, clause, expr, want, label):
 def observe_vector(ctx, where, va, vb, repr_, obs):
     """Compare the projection of the real state with the model's observation; returns the recorded projection."""
     from symplyphysics.core.vectors import arithmetics as ar
-    rec = {"a": None, "b": None, "dot": None, "msq": None, "kind": _type_name(va.coordinate_system)}
+    rec = {"a": None, "b": None, "dot": None, "msq": None, "mag": None, "unit": None, "proj": None,
+           "kind": _type_name(va.coordinate_system)}
     for name, v in (("a", va), ("b", vb)):
         kind = _type_name(v.coordinate_system)
         if kind != repr_:
@@ -175,7 +179,20 @@ def observe_vector(ctx, where, va, vb, repr_, obs):
               for i, (c, want) in enumerate(zip(proj, obs[name]))]
         rec[name] = None if any(f is None for f in fr) else fr
     rec["dot"] = _cmp(ctx, where, "dot", ar.dot_vectors(va, vb), obs["dot"], f"dot_vectors in {repr_}")
-    rec["msq"] = _cmp(ctx, where, "magnitude", ar.vector_magnitude(va)**2, obs["msq"], f"vector_magnitude^2 in {repr_}")
+    mag = ar.vector_magnitude(va)
+    rec["mag"] = _cmp(ctx, where, "magnitude", mag, obs["mag"], f"vector_magnitude of {list(va.components)} in {repr_}")
+    rec["msq"] = _cmp(ctx, where, "magnitude squared", mag**2, obs["msq"], f"vector_magnitude^2 in {repr_}")
+    # unit vector and projection onto b, computed by the library in the current system, as Cartesian data
+    for name, fn, args in (("unit", ar.vector_unit, (va,)), ("proj", ar.project_vector, (va, vb))):
+        res = fn(*args)
+        kind = _type_name(res.coordinate_system)
+        if kind != repr_ or len(res.components) > 3:
+            ctx.problems.append((where, name, f"{fn.__name__} returned a vector of a {kind} system with {len(res.components)} components"))
+            continue
+        cart = project(kind, res.components)
+        fr = [_cmp(ctx, where, f"{name}[{i}]", c, want, f"{fn.__name__} in {repr_} = {list(res.components)} projects to")
+              for i, (c, want) in enumerate(zip(cart, obs[name]))]
+        rec[name] = None if any(f is None for f in fr) else fr
     return rec
 
 
@@ -240,15 +257,21 @@ def _step_record(group, pre, act, arg, refused, post):
     if any(v is None for v in pre.values()) or any(v is None for v in post.values()):
         return None
     if group["obj"] == "vector":
-        if any(d != 1 for _, d in pre["a"] + pre["b"]):
+        # the recorded pre-state as integers over a common denominator: a = num / den, |a| = magn / den
+        from math import lcm
+        if any(d != 1 for _, d in pre["b"]):
             return None
-        a, b = [n for n, _ in pre["a"]], [n for n, _ in pre["b"]]
-        post_obs = {k: post[k] for k in ("a", "b", "dot", "msq")}
+        den = lcm(*[d for _, d in pre["a"]], pre["mag"][1])
+        a, b = [n * (den // d) for n, d in pre["a"]], [n for n, _ in pre["b"]]
+        magn = pre["mag"][0] * (den // pre["mag"][1])
+        if magn < 0 or den > 4096 or max(abs(x) for x in a) > 10**6:
+            return None
+        post_obs = {k: post[k] for k in ("a", "b", "dot", "msq", "mag", "unit", "proj")}
     else:
-        a, b = group["a"], group["b"]
+        a, b, den, magn = group["a"], group["b"], 1, 0
         post_obs = {"value": post["value"], "refused": post["refused"]}
-    return {"obj": group["obj"], "repr": pre["kind"], "a": a, "b": b, "act": act, "arg": arg, "refused": bool(refused),
-            "post_repr": post["kind"], "post": post_obs, "prefix": None}
+    return {"obj": group["obj"], "repr": pre["kind"], "a": a, "den": den, "magn": magn, "b": b, "act": act, "arg": arg,
+            "refused": bool(refused), "post_repr": post["kind"], "post": post_obs, "prefix": None}
 
 
 STEP_SECONDS = 30
@@ -274,7 +297,9 @@ def _one_step(ctx, group, state, step, where, act, arg, prefix):
             refused = f"{type(e).__name__}: {str(e)[:80]}"
             new_state = state
     elif act == "scale":
-        new_state = (ar.scale_vector(int(arg), state[0]), state[1])
+        import sympy as sp
+        kn, kd = arg.split("/")
+        new_state = (ar.scale_vector(sp.Rational(int(kn), int(kd)), state[0]), state[1])
         refused = False
     if step["ok"] and refused:
         ctx.problems.append((where, f"{act} {arg}", f"model allows {act} to {arg} from {prefix[-1:] or 'start'}, code raised {refused}"))
@@ -433,6 +458,8 @@ def main() -> int:
         "library's component order (r, azimuth, polar) for spherical systems",
         "paths sharing a prefix share the execution of that prefix (the library calls are pure)",
         "any exception counts as a refusal",
+        "scale factors are rational, positive and negative; a curvilinear vector with a negative radial component is "
+        "read as the geometric vector its textbook projection gives",
     ]
     return run.finish(exhaustive=True)
 
